@@ -65,13 +65,22 @@ func gen(r *harn.Rng, tier string) interface{} {
 	// pending drop / reorder counters per direction, to avoid requesting both at once
 	pendDrop, pendReo := [2]int{}, [2]int{}
 	qlen := [2]int{}
+	lossOn, lossy := false, r.Bool(0.25)
 	for i := 0; i < n; i++ {
 		d := r.Intn(2)
 		x := r.Intn(100)
+		if lossy && r.Bool(0.12) {
+			// total loss switched on for a stretch of writes, then off again: the writes in between
+			// vanish and leave every pending scripted impairment as it was
+			lossOn = !lossOn
+			sc.Ops = append(sc.Ops, op{K: "loss", N: map[bool]int{true: 100, false: 0}[lossOn]})
+			continue
+		}
 		switch {
 		case x < 55:
 			sc.Ops = append(sc.Ops, op{K: "w", Dir: d, N: r.Pick(4, 4, 5, 16, 100, 1200, 4, 16, 100, 0), DLus: r.Pick(0, 0, 0, 0, 0, 0, 1, 10, 50, 100)})
 			switch {
+			case lossOn:
 			case pendDrop[d] > 0:
 				pendDrop[d]--
 			case pendReo[d] > 0:
@@ -198,6 +207,7 @@ func runBridge(env *simrt.Env, sc *scenario) {
 	var got [2][][]byte
 	var readErr [2]error
 	nextID := uint32(1)
+	lossAll := false
 
 	startReaders := func() {
 	for e := 0; e < 2; e++ {
@@ -267,7 +277,17 @@ func runBridge(env *simrt.Env, sc *scenario) {
 				env.Fail("C18/bridge-write-failed", "op %d: Write on endpoint %d = (%d, %v)", i, d, n, err)
 				return
 			}
+			if lossAll {
+				env.Probe("write-under-total-loss")
+				continue // asked for: every write is lost, and nothing else about the script changes
+			}
 			models[d].write(b)
+		case "loss":
+			if err := br.SetLossChance(o.N); err != nil {
+				env.Fail("C18/bridge-loss-chance-refused", "op %d: SetLossChance(%d) = %v", i, o.N, err)
+				return
+			}
+			lossAll = o.N == 100
 		case "dropnext":
 			br.DropNextNWrites(d, o.N)
 			models[d].dropN = o.N
@@ -318,9 +338,12 @@ func runBridge(env *simrt.Env, sc *scenario) {
 		case "lossblip":
 			br.SetLossChance(o.N)
 			br.SetLossChance(0)
+			if lossAll {
+				br.SetLossChance(100)
+			}
 			env.Probe("loss-blip")
 		case "cburst":
-			if sc.Lazy || models[d].dropN > 0 || models[d].reorderN > 0 || models[d].filter != nil {
+			if sc.Lazy || lossAll || models[d].dropN > 0 || models[d].reorderN > 0 || models[d].filter != nil {
 				continue
 			}
 			flush()
